@@ -16,7 +16,7 @@ def load(doc_or_text, via: str = "tree"):
     if via == "file":
         scratch = os.environ.get("FV_SCRATCH", "/tmp")
         _cnt[0] += 1
-        path = os.path.join(scratch, f"net_{os.getpid()}_{_cnt[0]}.yaml")
+        path = os.path.join(scratch, f"net_{os.getpid()}.yaml")      # the same path every time: rewritten files must be read as they are now
         with open(path, "w") as f:
             f.write(doc_or_text)
         try:
